@@ -6,7 +6,9 @@ import (
 	"fmt"
 	"math"
 	"math/big"
+	"os"
 	"sort"
+	"strconv"
 	"time"
 
 	"github.com/filecoin-project/go-f3/certs"
@@ -91,6 +93,7 @@ type Monitor struct {
 	ExtraRoundsMax                                                     int64
 	lastChangeEv, alarmsSinceChange                                    int
 	lastChangeAt                                                       time.Time
+	lastConverge                                                       map[uint64]map[int]*gpbft.ECChain // instance -> honest member -> value of its latest CONVERGE
 	Checks                                                             map[string]int
 	RejectClasses                                                      map[string]int
 	DecideRounds                                                       map[uint64]int
@@ -104,7 +107,7 @@ type decRec struct {
 func NewMonitor() *Monitor {
 	return &Monitor{decisions: map[uint64][]decRec{}, observers: map[uint64]*gpbft.Participant{},
 		ValuesVoted: map[uint64]map[gpbft.ECChainKey]bool{}, gstRound: map[uint64]uint64{}, Checks: map[string]int{},
-		RejectClasses: map[string]int{}, DecideRounds: map[uint64]int{}, ring: make([]rec, 400)}
+		RejectClasses: map[string]int{}, DecideRounds: map[uint64]int{}, ring: make([]rec, ringSize())}
 }
 
 func (m *Monitor) attach(w *World) {
@@ -113,6 +116,14 @@ func (m *Monitor) attach(w *World) {
 	for i := range m.ps {
 		m.ps[i] = &pstate{emits: map[sentKey]int{}, shadows: map[uint64]*shadow{}, roundGST: map[uint64]uint64{}}
 	}
+}
+
+// ringSize: witness trace length (VERIF_TRACE=<n> enlarges it for debugging replays).
+func ringSize() int {
+	if v, err := strconv.Atoi(os.Getenv("VERIF_TRACE")); err == nil && v > 400 {
+		return v
+	}
+	return 400
 }
 
 func (m *Monitor) log(r rec) {
@@ -144,8 +155,8 @@ func (m *Monitor) find(prop, sig string, detail map[string]any) {
 		detail = map[string]any{}
 	}
 	t := m.Tail()
-	if len(t) > 120 {
-		t = t[len(t)-120:]
+	if keep := max(120, ringSize()-400); len(t) > keep {
+		t = t[len(t)-keep:]
 	}
 	m.Findings = append(m.Findings, Finding{Prop: prop, Sig: sig, Detail: detail, Tail: t})
 }
@@ -328,12 +339,90 @@ func (m *Monitor) onProgress(h *host) {
 				m.ExtraRoundsMax = extra
 			}
 			if cur.Round > rg+B {
-				m.find("C06", fmt.Sprintf("C06 undecided participant beyond round bound (byz=%v)", m.byzEverSent),
+				m.find("C06", fmt.Sprintf("C06 undecided participant beyond round bound (byz=%v)%s", m.byzEverSent, m.lotteryNote(cur.ID)),
 					map[string]any{"participant": h.i, "instance": cur.ID, "round": cur.Round, "round_at_gst": rg, "bound": B})
 				m.w.stop("c06-bound")
 			}
 		}
 	}
+}
+
+// lotteryNote classifies a round-bound excess. GPBFT lets a participant accept a CONVERGE value only
+// if it is one of its candidates (prefixes of its OWN input backed by a QUALITY quorum) or is justified
+// by a PREPARE quorum. If the value most honest members keep proposing is not a prefix of the input of
+// some honest members whose power the quorum cannot do without, those members can never PREPARE it:
+// every round fails unless the CONVERGE ticket is won by a member proposing a value everybody accepts
+// (the base). Termination is then a lottery whose odds are that member's power share -- by protocol
+// design, not by an implementation slip. The note makes this history recognisable (known finding
+// C06-lottery-input-divergence); any other excess keeps the plain signature.
+func (m *Monitor) lotteryNote(inst uint64) string {
+	w := m.w
+	T := w.Table(inst)
+	lc := m.lastConverge[inst]
+	if T == nil || len(lc) == 0 {
+		return ""
+	}
+	// the value proposed by most honest power
+	type agg struct {
+		c *gpbft.ECChain
+		p int64
+	}
+	byKey := map[gpbft.ECChainKey]*agg{}
+	var honest int64
+	for i, mem := range w.Sc.Members {
+		if mem.Kind != Honest {
+			continue
+		}
+		ix := T.IndexOf(mem.ID)
+		if ix < 0 {
+			continue
+		}
+		sp := scaledIndep(T, ix)
+		honest += sp
+		if c := lc[i]; c != nil {
+			a := byKey[c.Key()]
+			if a == nil {
+				a = &agg{c: c}
+				byKey[c.Key()] = a
+			}
+			a.p += sp
+		}
+	}
+	var major *agg
+	for _, a := range byKey {
+		if major == nil || a.p > major.p {
+			major = a
+		}
+	}
+	if major == nil || len(byKey) < 2 {
+		return ""
+	}
+	var total, cannot, acceptAll int64
+	for i := range T.Entries {
+		total += scaledIndep(T, i)
+	}
+	for i, mem := range w.Sc.Members {
+		if mem.Kind != Honest {
+			continue
+		}
+		ix := T.IndexOf(mem.ID)
+		if ix < 0 {
+			continue
+		}
+		sp := scaledIndep(T, ix)
+		in := w.Input(inst, i)
+		if in == nil || !in.HasPrefix(major.c) {
+			cannot += sp // the majority value is not a prefix of this member's input
+		}
+		if c := lc[i]; c != nil && c.Len() == 1 {
+			acceptAll += sp // proposes the base, which everybody accepts
+		}
+	}
+	threshold := (2*total + 2) / 3
+	if cannot == 0 || honest-cannot >= threshold {
+		return ""
+	}
+	return fmt.Sprintf(" [termination lottery by input divergence: the value most honest members propose is not a prefix of the input of honest members the quorum cannot do without; holders of a universally acceptable value have %d%% of the power]", acceptAll*100/max(total, 1))
 }
 
 func (m *Monitor) observer(inst uint64) *gpbft.Participant {
@@ -374,6 +463,15 @@ func (m *Monitor) onEmit(h *host, msg *gpbft.GMessage, rebroadcast, duplicateSlo
 		m.ValuesVoted[v.Instance] = map[gpbft.ECChainKey]bool{}
 	}
 	m.ValuesVoted[v.Instance][v.Value.Key()] = true
+	if v.Phase == gpbft.CONVERGE_PHASE {
+		if m.lastConverge == nil {
+			m.lastConverge = map[uint64]map[int]*gpbft.ECChain{}
+		}
+		if m.lastConverge[v.Instance] == nil {
+			m.lastConverge[v.Instance] = map[int]*gpbft.ECChain{}
+		}
+		m.lastConverge[v.Instance][h.i] = v.Value
+	}
 
 	// (b) acceptable to a fresh peer
 	if v.Instance < uint64(m.w.Sc.Instances) {
